@@ -1,0 +1,157 @@
+//go:build verif
+
+// Hooks for the verification harness in /verif. Compiled only with
+// `-tags verif`; nothing here is used by the library itself.
+
+package db
+
+// VerifPager is an exported mirror of the unexported pager interface, so the
+// harness can put its own (in-memory, fault injecting, tracing) pager under a
+// Database.
+type VerifPager interface {
+	Page(n int, pagesize int) ([]byte, error)
+	Close() error
+	RLock() error
+	RUnlock() error
+	CheckReservedLock() (bool, error)
+}
+
+type verifAdapter struct{ p VerifPager }
+
+func (a verifAdapter) page(n int, pagesize int) ([]byte, error) { return a.p.Page(n, pagesize) }
+func (a verifAdapter) Close() error                             { return a.p.Close() }
+func (a verifAdapter) RLock() error                             { return a.p.RLock() }
+func (a verifAdapter) RUnlock() error                           { return a.p.RUnlock() }
+func (a verifAdapter) CheckReservedLock() (bool, error)         { return a.p.CheckReservedLock() }
+
+// VerifOpen is newDatabase() on a harness supplied pager.
+func VerifOpen(p VerifPager, journal string) (*Database, error) {
+	return newDatabase(verifAdapter{p}, journal)
+}
+
+type verifFilePager struct{ f *filePager }
+
+func (v verifFilePager) Page(n int, pagesize int) ([]byte, error) { return v.f.page(n, pagesize) }
+func (v verifFilePager) Close() error                             { return v.f.Close() }
+func (v verifFilePager) RLock() error                             { return v.f.RLock() }
+func (v verifFilePager) RUnlock() error                           { return v.f.RUnlock() }
+func (v verifFilePager) CheckReservedLock() (bool, error)         { return v.f.CheckReservedLock() }
+
+// VerifFilePager gives the real file pager, to be wrapped by the harness.
+func VerifFilePager(file string) (VerifPager, error) {
+	f, err := newFilePager(file)
+	if err != nil {
+		return nil, err
+	}
+	return verifFilePager{f}, nil
+}
+
+func VerifReadVarint(b []byte) (int64, int)     { return readVarint(b) }
+func VerifParseRecord(b []byte) (Record, error) { return parseRecord(b) }
+func VerifCellInPageBytes(l int64, pageSize int, maxInPagePayload int) int {
+	return calculateCellInPageBytes(l, pageSize, maxInPagePayload)
+}
+func VerifCompare(a, b interface{}, coll string) int { return compare(a, b, CollateFuncs[coll]) }
+func VerifValidJournal(file string) (bool, error)    { return validJournal(file) }
+func VerifParseHeader(b []byte) (int, uint32, uint32, error) {
+	h, err := parseHeader(b)
+	return h.PageSize, h.ChangeCounter, h.SchemaCookie, err
+}
+
+// VerifCell / VerifPage: a neutral dump of a parsed b-tree page.
+type VerifCell struct {
+	Left       int64 // rowid (table leaf) or left child page (interior)
+	Key        int64 // table interior only
+	HasPayload bool
+	Length     int64
+	Overflow   int
+	Local      []byte
+}
+type VerifPage struct {
+	Kind      string // tleaf, tinterior, ileaf, iinterior
+	Rightmost int
+	Cells     []VerifCell
+}
+
+func verifPayload(left int64, pl cellPayload) VerifCell {
+	return VerifCell{Left: left, HasPayload: true, Length: pl.Length, Overflow: pl.Overflow, Local: pl.Payload}
+}
+
+func verifDump(p interface{}) *VerifPage {
+	switch t := p.(type) {
+	case *tableLeaf:
+		r := &VerifPage{Kind: "tleaf"}
+		for _, c := range t.cells {
+			r.Cells = append(r.Cells, verifPayload(c.left, c.payload))
+		}
+		return r
+	case *tableInterior:
+		r := &VerifPage{Kind: "tinterior", Rightmost: t.rightmost}
+		for _, c := range t.cells {
+			r.Cells = append(r.Cells, VerifCell{Left: int64(c.left), Key: c.key})
+		}
+		return r
+	case *indexLeaf:
+		r := &VerifPage{Kind: "ileaf"}
+		for _, c := range t.cells {
+			r.Cells = append(r.Cells, verifPayload(0, c))
+		}
+		return r
+	case *indexInterior:
+		r := &VerifPage{Kind: "iinterior", Rightmost: t.rightmost}
+		for _, c := range t.cells {
+			r.Cells = append(r.Cells, verifPayload(int64(c.left), c.payload))
+		}
+		return r
+	}
+	return nil
+}
+
+// VerifParsePage is newBtree() with its result dumped.
+func VerifParsePage(b []byte, isFileHeader bool, pageSize int) (*VerifPage, error) {
+	p, err := newBtree(b, isFileHeader, pageSize)
+	if err != nil {
+		return nil, err
+	}
+	return verifDump(p), nil
+}
+
+// VerifOpenPage is Database.openPage() with its result dumped.
+func VerifOpenPage(db *Database, n int) (*VerifPage, error) {
+	p, err := db.openPage(n)
+	if err != nil {
+		return nil, err
+	}
+	return verifDump(p), nil
+}
+
+// VerifTable / VerifIndex open a b-tree by root page, bypassing sqlite_master.
+func VerifTable(db *Database, root int) *Table { return &Table{db: db, root: root} }
+func VerifIndex(db *Database, root int) *Index { return &Index{db: db, root: root} }
+
+type VerifMasterRow struct {
+	Typ, Name, TblName string
+	RootPage           int
+	SQL                string
+}
+
+// VerifMaster is Database.master().
+func VerifMaster(db *Database) ([]VerifMasterRow, error) {
+	ms, err := db.master()
+	var res []VerifMasterRow
+	for _, m := range ms {
+		res = append(res, VerifMasterRow{m.typ, m.name, m.tblName, m.rootPage, m.sql})
+	}
+	return res, err
+}
+
+// VerifPageSize gives the page size of the last parsed header.
+func VerifPageSize(db *Database) int {
+	if db.header == nil {
+		return 0
+	}
+	return db.header.PageSize
+}
+
+// VerifErrInternal exposes errInternal for error classification.
+var VerifErrInternal = errInternal
